@@ -38,6 +38,7 @@ EFFECTS = {
     ("basic", "load_basic_bindings.<locals>._paste"): 18,
     ("cpr", "load_cpr_bindings.<locals>._"): 19,
     ("gen_t_c17", "c17_extra_noop"): 12,
+    ("basic", "load_basic_bindings.<locals>._newline2"): 20,     # C-j: feeds ControlM with first=True
 }
 KEY_OFFSET = 1000       # a one-character key c is KEY_OFFSET + ord(c); a Keys member its index in list(Keys)
 
@@ -143,7 +144,7 @@ def t_C17_Bindings():
     if not (100 < len(rows) < 600):
         die("unexpected number of active bindings: %d" % len(rows))
     effs = [r[1] for r in rows]
-    for need in (1, 12, 13, 14, 15, 16, 17, 18, 19):
+    for need in (1, 12, 13, 14, 15, 16, 17, 18, 19, 20):
         if need not in effs:
             die("no active binding with effect %d (the model's handler table no longer fits)" % need)
     for pats, eff, am, em, b in rows:
